@@ -7,21 +7,21 @@ From Verif Require Import Bytes Codec Router RouterProofs.
 (* isolation, part 1: an operation changes no backing storage other than the one its (destination)
    bucket is routed to; reads (Head, ListBuckets) change nothing at all *)
 Theorem C24_isolation_storages : forall c now w o j,
-  (forall i b, target c o = Some (i, b) -> j <> i) ->
+  (forall i b, In (i, b) (targets c o) -> j <> i) ->
   get_store (fst (step c now w o)) j = get_store w j.
 Proof. exact step_other_storage. Qed.
 Print Assumptions C24_isolation_storages.
 
-(* isolation, part 2: inside that storage only the named bucket changes *)
-Theorem C24_isolation_buckets : forall c now w o i b b2,
-  target c o = Some (i, b) -> b2 <> b -> i < length w ->
-  aget b2 (get_store (fst (step c now w o)) i) = aget b2 (get_store w i).
+(* isolation, part 2: a bucket the operation does not name is unchanged in every backing storage *)
+Theorem C24_isolation_buckets : forall c now w o j b2,
+  (forall i b, In (i, b) (targets c o) -> b2 <> b) ->
+  aget b2 (get_store (fst (step c now w o)) j) = aget b2 (get_store w j).
 Proof. exact step_other_bucket. Qed.
 Print Assumptions C24_isolation_buckets.
 
 (* isolation over histories: a storage that no operation of the history targets is untouched *)
 Theorem C24_isolation_history : forall c ops n w j,
-  (forall o i b, In o ops -> target c o = Some (i, b) -> j <> i) ->
+  (forall o i b, In o ops -> In (i, b) (targets c o) -> j <> i) ->
   get_store (fst (run_from c n w ops)) j = get_store w j.
 Proof.
   intros c ops. induction ops as [|o ops IH]; intros n w j H; cbn [run_from]; [reflexivity|].
@@ -33,9 +33,9 @@ Proof.
 Qed.
 Print Assumptions C24_isolation_history.
 
-(* the target of an operation is the storage its bucket is routed to (lookupStorage) *)
-Theorem C24_target_is_route : forall c o i b, target c o = Some (i, b) -> i = route c b.
-Proof. intros c o i b. destruct o; cbn; intros H; inversion H; reflexivity. Qed.
+(* the targets of an operation are the storages its buckets are routed to (lookupStorage) *)
+Theorem C24_target_is_route : forall c o i b, In (i, b) (targets c o) -> i = route c b.
+Proof. intros c o i b. destruct o; cbn; intros H; repeat (destruct H as [H|H]; [inversion H; reflexivity|]); destruct H. Qed.
 Print Assumptions C24_target_is_route.
 
 (* ListBuckets is complete: every bucket of the default storage and of every mapped storage is listed *)
@@ -56,7 +56,7 @@ Definition C24_list_no_dup_full : Prop :=
 Theorem C24_list_no_dup_refuted : ~ C24_list_no_dup_full.
 Proof.
   intros F.
-  specialize (F [(B"aaa", 1); (B"bbb", 1)] 0%Z (fst (run [(B"aaa", 1); (B"bbb", 1)] [[]; []; []] [CreateBucket B"aaa" false])) _ eq_refl).
+  specialize (F [(B"aaa", 1); (B"bbb", 1)] 0%Z (fst (run [(B"aaa", 1); (B"bbb", 1)] [[]; []; []] [CreateBucket B"aaa" VOff])) _ eq_refl).
   vm_compute in F. inversion F as [|x l Hn Hd]. apply Hn. left. reflexivity.
 Qed.
 Print Assumptions C24_list_no_dup_refuted.
@@ -70,23 +70,24 @@ Print Assumptions C24_list_no_dup_partial.
 (* ---- copy-source preconditions ---- *)
 (* the middleware's copySourceConditionsSatisfied decides exactly like the storage's own
    evaluateCopySourceConditions, for every combination of the four headers and every instant *)
-Theorem C24_copy_conditions_agree : forall c lm, cross_conditions c lm = inner_conditions c lm.
+Theorem C24_copy_conditions_agree : forall c src, cross_conditions c src = inner_conditions c src.
 Proof. exact conditions_agree. Qed.
 Print Assumptions C24_copy_conditions_agree.
 
 (* time preconditions are evaluated at second granularity: only the second of Last-Modified matters *)
-Theorem C24_time_conditions_second_granularity : forall c lm lm',
-  (lm / 1000 = lm' / 1000)%Z -> cross_conditions c lm = cross_conditions c lm'.
-Proof. intros c lm lm' H. apply conditions_second_granularity. unfold trunc_s. rewrite H. reflexivity. Qed.
+Theorem C24_time_conditions_second_granularity : forall c o o',
+  o_data o = o_data o' -> o_m o = o_m o' -> (o_lm o / 1000 = o_lm o' / 1000)%Z ->
+  cross_conditions c o = cross_conditions c o'.
+Proof. intros c o o' D M H. apply conditions_second_granularity; auto. unfold trunc_s. rewrite H. reflexivity. Qed.
 Print Assumptions C24_time_conditions_second_granularity.
 
 (* a client that echoes the source's Last-Modified second back: If-Unmodified-Since passes,
    If-Modified-Since fails, whatever the sub-second part of the stored timestamp *)
-Theorem C24_echoed_last_modified : forall lm,
-  cross_conditions {| c_im := None; c_inm := None; c_ius := Some (lm / 1000 * 1000)%Z; c_ims := None |} lm = true /\
-  cross_conditions {| c_im := None; c_inm := None; c_ius := None; c_ims := Some (lm / 1000 * 1000)%Z |} lm = false.
+Theorem C24_echoed_last_modified : forall o,
+  cross_conditions {| c_im := None; c_inm := None; c_ius := Some (o_lm o / 1000 * 1000)%Z; c_ims := None |} o = true /\
+  cross_conditions {| c_im := None; c_inm := None; c_ius := None; c_ims := Some (o_lm o / 1000 * 1000)%Z |} o = false.
 Proof.
-  intros lm. unfold cross_conditions, trunc_s. cbn. rewrite Z.ltb_irrefl. cbn. split; reflexivity.
+  intros o. unfold cross_conditions, trunc_s. cbn. rewrite Z.ltb_irrefl. cbn. split; reflexivity.
 Qed.
 Print Assumptions C24_echoed_last_modified.
 
@@ -101,8 +102,8 @@ Definition C24_cross_copy_eq_same_copy_full : Prop :=
 
 (* refuted (1): user metadata, tags and the multipart ETag are lost by the re-put with nil options *)
 Definition c24_src_store : store :=
-  [(B"aaa", {| b_versioned := false; b_keys := [(B"k", [VObj {| o_data := B"d"; o_c := true; o_u := true; o_t := true; o_m := false; o_lm := 1537 |}])] |})].
-Definition c24_dst_store : store := [(B"ddd", {| b_versioned := false; b_keys := [] |})].
+  [(B"aaa", {| b_mode := VOff; b_keys := [(B"k", [VObj {| o_data := B"d"; o_c := true; o_u := true; o_t := true; o_m := false; o_lm := 1537 |}])] |})].
+Definition c24_dst_store : store := [(B"ddd", {| b_mode := VOff; b_keys := [] |})].
 
 Theorem C24_cross_copy_eq_same_copy_refuted : ~ C24_cross_copy_eq_same_copy_full.
 Proof.
@@ -121,7 +122,7 @@ Definition C24_cross_copy_result_kind_full : Prop :=
 Theorem C24_cross_copy_result_kind_refuted : ~ C24_cross_copy_result_kind_full.
 Proof.
   intros F.
-  specialize (F [(B"aaa", {| b_versioned := false; b_keys := [(B"k", [VObj {| o_data := []; o_c := false; o_u := false; o_t := false; o_m := false; o_lm := 1537 |}])] |})]
+  specialize (F [(B"aaa", {| b_mode := VOff; b_keys := [(B"k", [VObj {| o_data := []; o_c := false; o_u := false; o_t := false; o_m := false; o_lm := 1537 |}])] |})]
                 c24_dst_store B"aaa" B"k" B"ddd" B"k2" {| co_vid := None; co_range := RgSuffix 3; co_conds := no_conds |} true 2537%Z).
   vm_compute in F. discriminate.
 Qed.
@@ -164,8 +165,71 @@ Theorem C24_router_copy_paths : forall c now w sb sk db dk co,
 Proof. reflexivity. Qed.
 Print Assumptions C24_router_copy_paths.
 
+(* ---- a cross-storage copy racing with another client ---- *)
+(* The cross-storage copy is several source calls.  For EVERY call boundary k at which another client
+   overwrites or deletes the source key (any bucket mode: unversioned, Enabled, Suspended; any
+   source version id, range, precondition set; CopyObject and UploadPartCopy), the copy is one
+   atomic step: its result and the destination state are those of the copy executed entirely before
+   the writer, or entirely after the writer, or it fails with PreconditionFailed and writes nothing.
+   Never bytes of one generation with metadata / preconditions / SourceVersionID of another. *)
+Theorem C24_interleaved_copy_atomic : forall k wr ss ds sb sk db dk co mp now,
+  cross_copy_at k wr ss ds sb sk db dk co mp now = cross_copy ss ds sb sk db dk co mp now \/
+  cross_copy_at k wr ss ds sb sk db dk co mp now = cross_copy (apply_writer wr ss sb sk) ds sb sk db dk co mp now \/
+  cross_copy_at k wr ss ds sb sk db dk co mp now = (None, RPrecondition).
+Proof. intros. apply cross_copy_at_atomic. Qed.
+Print Assumptions C24_interleaved_copy_atomic.
+
+(* the call sequence Head / preconditions / Get(IfMatch = head's ETag) / Put IS the copy when
+   nothing intervenes, and between Head and Get the only third outcome is the failed precondition *)
+Theorem C24_copy_call_sequence : forall s sw ds sb sk db dk co mp now,
+  cross_copy_gen s s ds sb sk db dk co mp now = cross_copy s ds sb sk db dk co mp now /\
+  (cross_copy_gen s sw ds sb sk db dk co mp now = cross_copy s ds sb sk db dk co mp now \/
+   cross_copy_gen s sw ds sb sk db dk co mp now = cross_copy sw ds sb sk db dk co mp now \/
+   cross_copy_gen s sw ds sb sk db dk co mp now = (None, RPrecondition)).
+Proof. intros. split; [apply cross_copy_gen_same | apply cross_copy_gen_race]. Qed.
+Print Assumptions C24_copy_call_sequence.
+
+(* ---- the ambient transaction ---- *)
+(* routing is independent of the ambient transaction: the operations of a transaction element give
+   the results of the same operations run plainly; after a commit the world is the plain world; after
+   a rollback every routed backing is the plain one and the default backing is what it was *)
+Theorem C24_routing_independent_of_ambient_tx : forall c n w commit ops,
+  w <> [] ->
+  run_elem c n w (PTx commit ops) =
+  (if commit then fst (plain_run c (n * 1000)%Z w ops)
+   else set0 (fst (plain_run c (n * 1000)%Z w ops)) (get_store w 0),
+   RTx (snd (plain_run c (n * 1000)%Z w ops)) commit).
+Proof.
+  intros c n w commit ops Hw. cbn [run_elem]. rewrite (tx_run_plain c ops _ w (get_store w 0) Hw).
+  rewrite set0_get. destruct commit; [|reflexivity]. rewrite set0_set0, set0_get. reflexivity.
+Qed.
+Print Assumptions C24_routing_independent_of_ambient_tx.
+
+Theorem C24_rollback_restores_only_the_default : forall c n w ops j,
+  w <> [] ->
+  get_store (fst (run_elem c n w (PTx false ops))) j =
+  if Nat.eqb j 0 then get_store w 0 else get_store (fst (plain_run c (n * 1000)%Z w ops)) j.
+Proof.
+  intros c n w ops j Hw. rewrite C24_routing_independent_of_ambient_tx by exact Hw. cbn [fst].
+  destruct j as [|j]; cbn [Nat.eqb].
+  - apply get_set0. intros E. pose proof (f_equal (@length _) E) as L.
+    assert (Hl : forall ops n w, length (fst (plain_run c n w ops)) = length w).
+    { clear. induction ops as [|p ops IH]; intros n w; cbn [plain_run]; [reflexivity|].
+      destruct (step c (n * 1000 + 537)%Z w (resolve c w p (n * 1000 + 537)%Z)) as [w1 x] eqn:E.
+      specialize (IH (n + 1)%Z w1). destruct (plain_run c (n + 1)%Z w1 ops) as [w2 xs]. cbn [fst] in *.
+      rewrite IH. replace w1 with (fst (step c (n * 1000 + 537)%Z w (resolve c w p (n * 1000 + 537)%Z))) by (rewrite E; reflexivity).
+      apply step_length. }
+    rewrite Hl in L. destruct w; [congruence | discriminate].
+  - apply get_set0_other. discriminate.
+Qed.
+Print Assumptions C24_rollback_restores_only_the_default.
+
 (* non-vacuity: versions, a pinned non-current version, a range, echoed Last-Modified, a duplicated listing *)
 Example C24_ex :
   run_line B"aaa:1,bbb:1,ccc:2 cbv,aaa;cb,ccc;put,aaa,k1,abcdefgh,1;put,aaa,k1,xy,0;del,aaa,k1;cp,aaa,k1,ccc,k2,1,2:6,us0;cp,aaa,k1,ccc,k3,-,-,-;cp,aaa,k1,ccc,k3,3,-,-;upc,aaa,k1,ccc,k4,2,-,ms0;lb" =
   B"ok;ok;ok;ok;ok;ok:1;DeleteMarker;MethodNotAllowed;PreconditionFailed;L:aaa,aaa,ccc | 0: 1:aaa!{k1=DM|xy:c0u0t0m0|abcdefgh:c1u1t1m0} 2:ccc{k2=cdef:c1u0t0m0}".
+Proof. vm_compute. reflexivity. Qed.
+Example C24_ex_race :
+  run_line B"aaa:1,ccc:2 cbs,aaa;cb,ccc;put,aaa,k1,abcdefgh,2;cpi,aaa,k1,ccc,k1,-,-,imE,2,put:xy:0;put,aaa,k2,abcdefgh,2;cpi,aaa,k2,ccc,k2,-,-,-,2,put:abcdefgh:0;txr=cb,ddd/put,ccc,k9,xy,0" =
+  B"ok;ok;ok;PreconditionFailed;ok;ok:null;T[ok/ok]:rb | 0: 1:aaa~{k1=xy:c0u0t0m0,k2=abcdefgh:c0u0t0m0} 2:ccc{k2=abcdefgh:c1u0t0m0,k9=xy:c0u0t0m0}".
 Proof. vm_compute. reflexivity. Qed.
